@@ -241,6 +241,21 @@ def run(ctx):
     # so another instance or an earlier failed call cannot make a valid request produce an unverifiable proof
     from . import c05
     c05.check_purity(ctx, ctx.fb("default"), rule="R12-6")
+    # R12-9 (shared with C11 R11-3 / R11-6): "never crashes" for a C caller: the three proving wrappers return false when the method
+    # returns Err and their own code (the macro's error branch included) cannot panic inside the extern "C" function
+    from . import c11
+    k9 = 0
+    for cfg9 in cfgs[:2]:
+        fb9 = ctx.fb(cfg9)
+        for w in c11.wrappers(fb9):
+            if w["name"] in ("prove", "generate_rln_proof", "generate_rln_proof_with_witness"):
+                sub9 = type(ctx)(ctx.pid, ctx.tier)
+                c11.check_wrapper(sub9, fb9, w, cfg9)
+                c11.check_wrapper_panics(sub9, fb9, w, cfg9)
+                k9 += 1
+                for r in sub9.results:
+                    (ctx.ok if r.status == "ok" else ctx.fail)("R12-9", r.instance, r.reason, r.loc)
+    ctx.floor("proving-ffi-wrappers", k9, 4)
     # R12-8 (shared with C07 R07-1..R07-3): the tree lookup behind generate_rln_proof returns Err (never panics) for a position outside
     # the tree and the stored path otherwise, in the three back ends
     from . import c07
